@@ -261,13 +261,24 @@ def run(ctx: Ctx) -> None:
                     d2.append(b)
     behs += d2
     n2 = len(d2)
+    # histories that end with a stale bookkeeping entry next to a live one (a recorded path whose
+    # directory was renamed/removed): __exit__ must survive the failing removal and carry on
+    stale = ctx.behaviours("MC_FsIsolation", "MC_FsIsolation_stale3.cfg", timeout=1500)
+    if thorough:
+        more = ctx.behaviours("MC_FsIsolation", "MC_FsIsolation_stale4.cfg", timeout=3600)
+        rng = ctx.rng("stale4")
+        rng.shuffle(more)
+        stale += more[:15000]
+        ctx.notes["behaviours_stale_depth4_enumerated"] = len(more)
+    behs += stale
+    ctx.notes["behaviours_stale_bookkeeping"] = len(stale)
     if thorough:    # random long histories (every non-final call changes the model state)
         for st in ctx.simulate("MC_FsIsolation", "MC_FsIsolation_sim.cfg", num=600, depth=8):
             if st.get("hist"):
                 behs.append({"hist": st["hist"]})
     ctx.notes["behaviours_exhaustive_depth1_all_variants"] = n1
     ctx.notes["behaviours_depth2_executed"] = n2
-    ctx.notes["behaviours_simulated"] = len(behs) - n1 - n2
+    ctx.notes["behaviours_simulated"] = len(behs) - n1 - n2 - len(stale)
     ctx.exhaustive = True
 
     t_exec = time.time()
